@@ -6,12 +6,82 @@ import NoulithModel.Lemmas.HeapRefine
 namespace Noulith.RcHeap
 open Noulith.Store (Tree modPath pyIdx setφ takeφ popφ removeφ getPath setPath)
 
+/-- second half of an operator-assignment: `drop_lhs`, operator, assign — entered with the old
+left-hand value `l` and the right-hand value `ev` owned -/
+theorem appendFinish_spec {s : State} {h : Heap} {σ : List Tree} {x : Nat} {l ev : Val} {tl tv : Tree}
+    (path : List Int) (hx : x < s.cells.length) (i : Inv h (ev :: l :: s.cells))
+    (sim : All2 (Rep h) s.cells σ) (rl : Rep h l tl) (re : Rep h ev tv) :
+    Refines (appendFinish s h x path l ev).1 (Store.appendFinish σ x path tl tv).1 ∧
+    (appendFinish s h x path l ev).2 = (Store.appendFinish σ x path tl tv).2 := by
+  have hxσ : x < σ.length := by rw [← All2.length_eq sim]; exact hx
+  have D := withCell_setIndex (s := s) (T := [ev, l]) (new := .null) path hx
+    (i.congr (fun k => by simp [occ_cons])) sim Rep_null
+  have hlen := withCell_cells_length s h x (fun h v => setIndex h v path .null)
+  simp only [appendFinish, Store.appendFinish, Store.get]
+  obtain ⟨d, hdd⟩ : ∃ d, withCell s h x (fun h v => setIndex h v path .null) = d := ⟨_, rfl⟩
+  simp only [hdd] at D hlen ⊢
+  obtain ⟨id, std, md⟩ := D
+  have rl3 : Rep d.1.h l tl := std.rep (.root (by simp)) rl
+  have re3 : Rep d.1.h ev tv := std.rep (.root (by simp)) re
+  have id' : Inv d.1.h (l :: ev :: d.1.cells) := id.congr (fun k => by simp [occ_cons, occ_append]; omega)
+  cases hsn : setPath (σ.getD x .null) path .null with
+  | none =>
+    rw [hsn] at md
+    simp only [md.1]
+    have D1 := drop_tr id'
+    have D2 := drop_tr D1.inv
+    have simf : All2 (Rep (drop (drop d.1.h l) ev)) d.1.cells σ :=
+      sim_stable (T := []) (sim_stable (T := [ev]) md.2 (by simpa using D1.stable)) (by simpa using D2.stable)
+    have hnone : ∀ b, setPath (σ.getD x .null) path b = none := fun b => (setPath_none_iff .null b).1 hsn
+    refine ⟨⟨by simpa using D2.inv, ?_⟩, ?_⟩
+    · cases tl with
+      | null => exact simf
+      | int n => exact simf
+      | list ts => simp only [hnone]; exact simf
+    · cases tl with
+      | null => rfl
+      | int n => rfl
+      | list ts => simp only [hnone]; first | rfl | trivial
+  | some t1 =>
+    rw [hsn] at md
+    simp only [md.1, if_true]
+    have A := appendOp_spec (F := d.1.cells) id' rl3 re3
+    obtain ⟨ap, hap⟩ : ∃ ap, appendOp d.1.h l ev = ap := ⟨_, rfl⟩
+    simp only [hap] at A ⊢
+    cases tl with
+    | null =>
+      dsimp only at A ⊢
+      simp only [A.1]
+      exact ⟨⟨by simpa using A.2.inv, sim_stable (T := []) md.2 (by simpa using A.2.stable)⟩, by first | rfl | trivial⟩
+    | int n =>
+      dsimp only at A ⊢
+      simp only [A.1]
+      exact ⟨⟨by simpa using A.2.inv, sim_stable (T := []) md.2 (by simpa using A.2.stable)⟩, by first | rfl | trivial⟩
+    | list ts =>
+      dsimp only at A ⊢
+      obtain ⟨c, hc, trc, rc⟩ := A
+      simp only [hc]
+      have sim4 := sim_stable (T := []) md.2 (by simpa using trc.stable)
+      have hx2 : x < d.1.cells.length := by rw [hlen]; exact hx
+      have W := withCell_setIndex (s := d.1) (T := []) path hx2 (by simpa using trc.inv) sim4 rc
+      obtain ⟨w, hw⟩ : ∃ w, withCell d.1 ap.1 x (fun h v => setIndex h v path c) = w := ⟨_, rfl⟩
+      simp only [hw] at W ⊢
+      obtain ⟨iw, _, mw⟩ := W
+      rw [getD_set_same _ _ _ _ hxσ, setPath_setPath _ hsn] at mw
+      cases hsf : setPath (σ.getD x .null) path (.list (ts ++ [tv])) with
+      | none =>
+        exact absurd ((setPath_none_iff _ .null).1 hsf) (by rw [hsn]; simp)
+      | some t2 =>
+        rw [hsf] at mw
+        refine ⟨⟨by simpa using iw, ?_⟩, mw.1⟩
+        have := mw.2
+        rwa [List.set_set] at this
+
 theorem step_append {s : State} {σ : List Tree} (R : Refines s σ) (x : Nat) (path : List Int) (r : Rhs) :
     StepOK s σ (.append x path r) := by
   by_cases hx : x < s.cells.length
   · have hd : declared s x = true := by simp [declared, hx]
     have hd' : Store.declared σ x = true := by rw [← R.decl]; exact hd
-    have hxσ : x < σ.length := by rw [← R.len]; exact hx
     have RL := readLvalue_spec (s := s) (h := s.h) (T := []) x path (by simpa using R.inv) R.sim
     simp only [StepOK, step, Store.step, hd, hd', if_true, Store.get, readVar]
     obtain ⟨rp, hrp⟩ : ∃ rp, readPath (dup s.h (cellOf s x)) (cellOf s x) path = rp := ⟨_, rfl⟩
@@ -25,7 +95,6 @@ theorem step_append {s : State} {σ : List Tree} (R : Refines s σ) (x : Nat) (p
       rw [hg] at RL
       obtain ⟨l, hl, il, stl, rl⟩ := RL
       simp only [hl]
-      -- evaluate the right-hand side
       have sim1 : All2 (Rep rp.1) s.cells σ := sim_stable (T := []) R.sim (by simpa using stl)
       have E := evalRhs_spec (s := ⟨rp.1, s.cells⟩) (T := [l]) r (by simpa using il) sim1
       obtain ⟨e, he⟩ : ∃ e, evalRhs ⟨rp.1, s.cells⟩ r = e := ⟨_, rfl⟩
@@ -34,71 +103,56 @@ theorem step_append {s : State} {σ : List Tree} (R : Refines s σ) (x : Nat) (p
       try dsimp only at ie ste re
       have sim2 := sim_stable sim1 ste
       have rl2 : Rep e.1 l tl := ste.rep (.root (by simp)) rl
-      -- drop_lhs
-      have D := withCell_setIndex (s := s) (T := [e.2, l]) (new := .null) path hx
-        (ie.congr (fun k => by simp [occ_cons])) sim2 Rep_null
-      have hlen := withCell_cells_length s e.1 x (fun h v => setIndex h v path .null)
-      obtain ⟨d, hdd⟩ : ∃ d, withCell s e.1 x (fun h v => setIndex h v path .null) = d := ⟨_, rfl⟩
-      simp only [hdd] at D hlen ⊢
-      obtain ⟨id, std, md⟩ := D
-      have rl3 : Rep d.1.h l tl := std.rep (.root (by simp)) rl2
-      have re3 : Rep d.1.h e.2 (Store.evalRhs σ r) := std.rep (.root (by simp)) re
-      have id' : Inv d.1.h (l :: e.2 :: d.1.cells) := id.congr (fun k => by simp [occ_cons, occ_append]; omega)
-      cases hsn : setPath (σ.getD x .null) path .null with
-      | none =>
-        rw [hsn] at md
-        simp only [md.1]
-        have D1 := drop_tr id'
-        have D2 := drop_tr D1.inv
-        have simf : All2 (Rep (drop (drop d.1.h l) e.2)) d.1.cells σ :=
-          sim_stable (T := []) (sim_stable (T := [e.2]) md.2 (by simpa using D1.stable)) (by simpa using D2.stable)
-        have hnone : ∀ b, setPath (σ.getD x .null) path b = none := fun b => (setPath_none_iff .null b).1 hsn
-        refine ⟨⟨by simpa using D2.inv, ?_⟩, ?_⟩
-        · cases tl with
-          | null => exact simf
-          | int n => exact simf
-          | list ts => simp only [hnone]; exact simf
-        · cases tl with
-          | null => rfl
-          | int n => rfl
-          | list ts => simp only [hnone]; first | rfl | trivial
-      | some t1 =>
-        rw [hsn] at md
-        simp only [md.1, if_true]
-        have A := appendOp_spec (F := d.1.cells) id' rl3 re3
-        obtain ⟨ap, hap⟩ : ∃ ap, appendOp d.1.h l e.2 = ap := ⟨_, rfl⟩
-        simp only [hap] at A ⊢
-        cases tl with
-        | null =>
-          dsimp only at A ⊢
-          simp only [A.1]
-          exact ⟨⟨by simpa using A.2.inv, sim_stable (T := []) md.2 (by simpa using A.2.stable)⟩, by first | rfl | trivial⟩
-        | int n =>
-          dsimp only at A ⊢
-          simp only [A.1]
-          exact ⟨⟨by simpa using A.2.inv, sim_stable (T := []) md.2 (by simpa using A.2.stable)⟩, by first | rfl | trivial⟩
-        | list ts =>
-          dsimp only at A ⊢
-          obtain ⟨c, hc, trc, rc⟩ := A
-          simp only [hc]
-          have sim4 := sim_stable (T := []) md.2 (by simpa using trc.stable)
-          have hx2 : x < d.1.cells.length := by rw [hlen]; exact hx
-          have W := withCell_setIndex (s := d.1) (T := []) path hx2 (by simpa using trc.inv) sim4 rc
-          obtain ⟨w, hw⟩ : ∃ w, withCell d.1 ap.1 x (fun h v => setIndex h v path c) = w := ⟨_, rfl⟩
-          simp only [hw] at W ⊢
-          obtain ⟨iw, _, mw⟩ := W
-          rw [getD_set_same _ _ _ _ hxσ, setPath_setPath _ hsn] at mw
-          cases hsf : setPath (σ.getD x .null) path (.list (ts ++ [Store.evalRhs σ r])) with
-          | none =>
-            exact absurd ((setPath_none_iff _ .null).1 hsf) (by rw [hsn]; simp)
-          | some t2 =>
-            rw [hsf] at mw
-            refine ⟨⟨by simpa using iw, ?_⟩, mw.1⟩
-            have := mw.2
-            rwa [List.set_set] at this
+      exact appendFinish_spec path hx (by simpa using ie) sim2 rl2 re
   · have hd : declared s x = false := by simp [declared, hx]
     have hd' : Store.declared σ x = false := by rw [← R.decl]; exact hd
     simp only [StepOK, step, Store.step, hd, hd']
+    exact ⟨R, by first | rfl | trivial⟩
+
+/-- `x[path] append= pop y[ypath]`: the old left-hand value is read before the right-hand side pops -/
+theorem step_appendPop {s : State} {σ : List Tree} (R : Refines s σ) (x : Nat) (path : List Int) (y : Nat)
+    (ypath : List Int) : StepOK s σ (.appendPop x path y ypath) := by
+  by_cases hxy : x < s.cells.length ∧ y < s.cells.length
+  · obtain ⟨hx, hy⟩ := hxy
+    have hd : (declared s x = true ∧ declared s y = true) := by simp [declared, hx, hy]
+    have hd' : (Store.declared σ x = true ∧ Store.declared σ y = true) := by
+      rw [← R.decl, ← R.decl]; exact hd
+    have RL := readLvalue_spec (s := s) (h := s.h) (T := []) x path (by simpa using R.inv) R.sim
+    simp only [StepOK, step, Store.step, hd, hd', and_self, if_true, Store.get, readVar]
+    obtain ⟨rp, hrp⟩ : ∃ rp, readPath (dup s.h (cellOf s x)) (cellOf s x) path = rp := ⟨_, rfl⟩
+    simp only [hrp] at RL ⊢
+    cases hg : getPath (σ.getD x .null) path with
+    | none =>
+      rw [hg] at RL
+      simp only [RL.1]
+      exact ⟨⟨by simpa using RL.2.1, sim_stable (T := []) R.sim (by simpa using RL.2.2)⟩, by first | rfl | trivial⟩
+    | some tl =>
+      rw [hg] at RL
+      obtain ⟨l, hl, il, stl, rl⟩ := RL
+      simp only [hl]
+      have sim1 : All2 (Rep rp.1) s.cells σ := sim_stable (T := []) R.sim (by simpa using stl)
+      -- the right-hand side: pop y[ypath], with the old left-hand value `l` in the frame
+      have W := withCell_walk popLeaf_spec (s := s) (h := rp.1) (T := [l]) ypath hy (by simpa using il) sim1
+      obtain ⟨w, hw⟩ : ∃ w, withCell s rp.1 y (fun h v => walk popLeaf h v ypath) = w := ⟨_, rfl⟩
+      simp only [hw] at W ⊢
+      obtain ⟨stw, hlen, mw⟩ := W
+      have rl2 : Rep w.1.h l tl := stw.rep (.root (by simp)) rl
+      cases hm : modPath popφ (σ.getD y .null) ypath with
+      | none =>
+        rw [hm] at mw
+        simp only [mw.1]
+        have D := drop_tr (by simpa using mw.2.1 : Inv w.1.h (l :: w.1.cells))
+        exact ⟨⟨by simpa using D.inv, sim_stable (T := []) mw.2.2 (by simpa using D.stable)⟩, by first | rfl | trivial⟩
+      | some tr =>
+        obtain ⟨ty, r⟩ := tr
+        rw [hm] at mw
+        dsimp only at mw ⊢
+        simp only [mw.1, if_true]
+        exact appendFinish_spec path (by rw [hlen]; exact hx) (by simpa using mw.2.1) mw.2.2.1 rl2 mw.2.2.2
+  · have hd : ¬ (declared s x = true ∧ declared s y = true) := by simpa [declared] using hxy
+    have hd' : ¬ (Store.declared σ x = true ∧ Store.declared σ y = true) := by
+      rw [← R.decl, ← R.decl]; exact hd
+    simp only [StepOK, step, Store.step, hd, hd', if_false]
     exact ⟨R, by first | rfl | trivial⟩
 
 theorem step_swap {s : State} {σ : List Tree} (R : Refines s σ) (x : Nat) (px : List Int) (y : Nat) (py : List Int) :
@@ -260,5 +314,6 @@ theorem step_ok {s : State} {σ : List Tree} (R : Refines s σ) (st : Stmt) : St
   | swap x px y py => exact step_swap R x px y py
   | update y x i a => exact step_update R y x i a
   | callAppend y x a => exact step_callAppend R y x a
+  | appendPop x path y ypath => exact step_appendPop R x path y ypath
 
 end Noulith.RcHeap
